@@ -62,6 +62,20 @@ func c19rtSource(v *verifrt.T, s *SourceConf) *SourceConf {
 	return s2
 }
 
+var c19pats = []*regexp.Regexp{regexp.MustCompile(`\.nc$`), regexp.MustCompile(`^raw/`), regexp.MustCompile(`\.tmp$`), regexp.MustCompile(`^old/`)}
+
+func c19samePats(a, b []*regexp.Regexp) bool {
+	if len(a) != len(b) {
+		return false
+	}
+	for k := range a {
+		if a[k].String() != b[k].String() {
+			return false
+		}
+	}
+	return true
+}
+
 // Two sources, each with a default tag and one pattern tag; the first source is
 // concrete, the option values of the second and their presence are symbolic. (1) after the real propagate() a
 // tag's delete is its own value if given — also an explicit false — else the
@@ -100,7 +114,20 @@ func H_C19_Reencode(v *verifrt.T) {
 			minAge = v.Duration("min-age", 0, 1000*time.Hour)
 		}
 		own = append(own, tg)
+		// include / ignore lists of different lengths (the re-encoder writes
+		// both into one array and splits it again)
+		// (built the way the parser builds them: one array, split in two)
+		ni, ng := 2, 1
+		if k == 1 {
+			lay := [][2]int{{0, 0}, {1, 2}, {2, 1}, {2, 0}}[v.Choose("include-and-ignore-patterns", 4)]
+			ni, ng = lay[0], lay[1]
+		}
+		var all []*regexp.Regexp
+		all = append(all, c19pats[:ni]...)
+		all = append(all, c19pats[2:2+ng]...)
+		incl, ign := all[0:ni], all[ni:]
 		conf.Sources = append(conf.Sources, &SourceConf{
+			Include: incl, Ignore: ign,
 			Name: string(rune('a' + k)), Threads: threads,
 			StatPayload: stat, isStatPayloadSet: verifrt.And(givenStat, verifrt.Not(stat)),
 			ErrorBackoff: backoff, isErrorBackoffSet: backoff != 0,
@@ -145,6 +172,8 @@ func H_C19_Reencode(v *verifrt.T) {
 		a, b := conf.Sources[k], conf2.Sources[k]
 		v.Assert(a.Name == b.Name && a.Threads == b.Threads && a.MinAge == b.MinAge && a.BinSize == b.BinSize &&
 			a.IncludeHidden == b.IncludeHidden, "C19 re-encoding keeps the plain options of a source")
+		v.Assert(c19samePats(a.Include, b.Include), "C19 re-encoding keeps the include patterns of a source")
+		v.Assert(c19samePats(a.Ignore, b.Ignore), "C19 re-encoding keeps the ignore patterns of a source")
 		v.Assert(a.StatPayload == b.StatPayload, "C19 re-encoding keeps stat-payload (also an explicit false)")
 		v.Assert(a.ErrorBackoff == b.ErrorBackoff, "C19 re-encoding keeps error-backoff")
 		if len(b.Tags) != 2 {
